@@ -9,7 +9,7 @@
 (*   - the two answers are equal (the pre-check is invisible),               *)
 (*   - URLLowerCase is the lower-cased URL (the premise of ShortcutSound),    *)
 (*   - for short URLs the answer is Mask!Accepts of the logged pattern.      *)
-EXTENDS Mask, Json, SequencesExt, TLC
+EXTENDS Rule, Json, SequencesExt
 
 Trace == ndJsonDeserialize("trace.ndjson")
 NCH == 32
@@ -21,12 +21,15 @@ Next == \/ ch = 0 /\ l = 0 /\ ch' \in 1..NCH /\ l' = 0
 
 \* (the index of an engine that holds the rule is the same kind of accelerator: it reports the rule iff the rule matches)
 Invisible(e) == e.with = e.without /\ e.lower_ok /\ e.engine = e.with
-Semantic(e) == e.url = <<>> \/ e.with = Accepts(e.pat, e.mcase, e.url)
+\* for a hostname request (a DNS query) the text the pattern is applied to is Rule!Target: the bare hostname, unless
+\* the pattern pins down a scheme or has the "/label." shape - then it is "http://<hostname>", the request's URL
+TextOf(e) == IF e.hostreq /\ TargetIsHostname([pat |-> e.pat], [hostreq |-> TRUE]) THEN e.hostname ELSE e.url
+Semantic(e) == e.url = <<>> \/ e.with = Accepts(e.pat, e.mcase, TextOf(e))
 Allowed == l > 0 =>
     LET e == Trace[l] IN
     /\ Invisible(e) \/ ~PrintT(ToJson([kind |-> "REJECT", l |-> l, why |-> "pre-check visible",
                                         spec |-> [with |-> e.without, lower_ok |-> TRUE, engine |-> e.without],
                                         code |-> [with |-> e.with, lower_ok |-> e.lower_ok, engine |-> e.engine]]))
     /\ Semantic(e) \/ ~PrintT(ToJson([kind |-> "REJECT", l |-> l, why |-> "mask semantics",
-                                       spec |-> [with |-> Accepts(e.pat, e.mcase, e.url)], code |-> [with |-> e.with]]))
+                                       spec |-> [with |-> Accepts(e.pat, e.mcase, TextOf(e))], code |-> [with |-> e.with]]))
 =============================================================================
